@@ -677,7 +677,15 @@ impl<'a, 'b> Sem<'a, 'b> {
                     }
                     n_spreads += 1;
                     let e = if self.cfg.logging {
-                        self.logging_expr()
+                        if self.c.bool() {
+                            self.logging_expr()
+                        } else {
+                            // object-literal spread whose member is a leaf
+                            self.n_exprs += 1;
+                            let k = self.next_log();
+                            self.label("spread-object-literal");
+                            Ex::src(format!("{{ lk{k}: t({k}) }}"), Cat::ObjLit)
+                        }
                     } else {
                         match self.c.pick(5) {
                             0 | 1 => Ex::src(self.c.choose(&["p1", "p2"]), Cat::IdentBound),
@@ -823,6 +831,16 @@ impl<'a, 'b> Sem<'a, 'b> {
                     self.label("namespaced-attr");
                 }
                 let e = self.expr(depth + 1);
+                if let Ex::Jsx(node) = &e {
+                    if self.c.bool() {
+                        // `name=<jsx />` without braces
+                        self.label("braceless-jsx-attr-value");
+                        return Attr::JsxValue {
+                            name,
+                            node: node.clone(),
+                        };
+                    }
+                }
                 Attr::Expr { name, e }
             }
         }
